@@ -99,6 +99,23 @@ def list_position(call: ast.Call) -> tuple[str, ast.AST] | None:
             return "insert0", p
     if isinstance(p, (ast.List, ast.Tuple)):
         return "literal", p
+    # the command is first bound to a local and the local is then put into a command list
+    if isinstance(p, (ast.Assign, ast.AnnAssign)):
+        tgt = p.targets[0] if isinstance(p, ast.Assign) and len(p.targets) == 1 else getattr(p, "target", None)
+        if isinstance(tgt, ast.Name):
+            from ..index import enclosing_function
+            fn = enclosing_function(call)
+            if fn is not None:
+                for n in ast.walk(fn):
+                    if isinstance(n, ast.Name) and n.id == tgt.id and isinstance(n.ctx, ast.Load):
+                        q = parent(n)
+                        if isinstance(q, ast.Call) and isinstance(q.func, ast.Attribute) and n in q.args:
+                            if q.func.attr == "append":
+                                return "append", q
+                            if q.func.attr == "insert" and len(q.args) == 2 and isinstance(q.args[0], ast.Constant) and q.args[0].value == 0:
+                                return "insert0", q
+                        if isinstance(q, (ast.List, ast.Tuple)):
+                            return "literal", q
     return None
 
 
@@ -131,3 +148,23 @@ def wf_modules(repo: Repo, prefix: str = "workflows") -> Iterator[Module]:
     for m in repo.by_rel.values():
         if m.name == prefix or m.name.startswith(prefix + "."):
             yield m
+
+
+# Functions of the control-loop module that the rules bind as anchors (by name). Every *other* private helper that a
+# refactoring introduces is inlined into its callers before analysis (sa/inline.py), so that "extract method" does not
+# hide the constructs the rules look at.
+CL_PROTECTED = {
+    "_is_shutdown_error", "_single_pull", "control_loop", "rebuild_state_from_ticks", "replay_ticks_stream",
+    "rebuild_state_from_ticks_stream", "_reduce_tick", "rewind_in_progress", "_check_idle_state", "_process_step_result_tick",
+    "_add_or_enqueue_event", "_process_add_event_tick", "_process_cancel_run_tick", "_process_publish_event_tick",
+    "_process_timeout_tick", "_process_waiter_timeout_tick",
+    "_ControlLoopRunner.__init__", "_ControlLoopRunner.schedule_tick", "_ControlLoopRunner.next_wakeup_timeout",
+    "_ControlLoopRunner.pop_due_ticks", "_ControlLoopRunner.run_worker", "_ControlLoopRunner.process_command",
+    "_ControlLoopRunner.cleanup_tasks", "_ControlLoopRunner.run", "_ControlLoopRunner._process_tick",
+    "_ControlLoopRunner._has_scheduled_step_work", "_run_worker",
+}
+
+
+def engine_view(repo: Repo) -> int:
+    """Switch this Repo object to the helper-inlined view of the control-loop module."""
+    return repo.use_inlined(CL, CL_PROTECTED)
